@@ -160,6 +160,8 @@ class Run:
             ok = all((signature.get(a) in b) if isinstance(b, list) else (signature.get(a) == b) for a, b in m.items())
             if ok and k.get("requires_features"):
                 ok = set(k["requires_features"]) <= set(signature.get("features", []))
+            if ok and k.get("forbids_features"):
+                ok = not (set(k["forbids_features"]) & set(signature.get("features", [])))
             if ok and k.get("prql_regex"):
                 ok = bool(_re.search(k["prql_regex"], str((artefact or {}).get("prql", "")), _re.S))
             if ok and k.get("sql_regex"):
